@@ -395,4 +395,17 @@ def latch_rule(ctx, rule):
         ctx.ob(rule, "%s|empty-read-keeps-draining" % aid,
                "a read into an empty buffer (which returns 0 anywhere in the body) does not switch the draining destructor off: the rest of the body would be parsed as the next request",
                ok0 and not bad, where, None if not bad else "after such a read the destructor no longer reads; state changed to %s" % bad[:2])
+        # the dual (defect D12): chunked_transfer's Decoder parses chunk framing even when the buffer has no room, and keeps no record of
+        # having consumed the last chunk -- its Ok(0) for an empty buffer cannot be told from the end of the body (latching on it is what
+        # the obligation above forbids, not latching loses the end).  So a read into an empty buffer must not reach the decoder at all.
+        dec = [(bb, t) for bb, t in fr.calls() if t.get("callee") in READS and t.get("self_adt") == "chunked_transfer::Decoder"]
+        if dec:
+            reach = []
+            for p in run_read(True):
+                hit = [e for e in p.calls() if e[6] in READS and "<chunked_transfer::Decoder<" in (e[2] or "")]
+                if hit:
+                    reach.append(fr.loc(hit[0][0]))
+            ctx.ob(rule, "%s|empty-read-stays-out-of-the-chunk-decoder" % aid,
+                   "a read into an empty buffer does not reach the chunk decoder (it would consume the last chunk without a trace: the next read, or the drop, parses the next request's first line as a chunk header)",
+                   not reach, where, None if not reach else "the decoder is read with the caller's empty buffer at %s" % sorted(set(reach))[:2])
     return n
